@@ -251,6 +251,24 @@ def c09_case(acc, sp, kw, rng, tier, twin=False):
                 break
             if not row[lay.sub].any() or not row[lay.host].any():
                 continue        # unobserved row: address undefined
+            # an observed row is the host's row of the state with some
+            # columns blanked: whatever a column shows is what the same
+            # column of the state holds (value in the value column, discovery
+            # value in the discovery-value column, ...)
+            srow = envA.current_state.tensor[i]
+            shown = row != 0
+            if np.any(row[shown] != srow[shown]):
+                c = int(np.flatnonzero(shown & (row != srow))[0])
+                acc.violation("obs_column_holds_other_field",
+                              "obs_column_holds_other_field",
+                              {"row": i, "column": c,
+                               "column_name": lay.column_name(c)
+                               if hasattr(lay, "column_name") else None,
+                               "observed": float(row[c]),
+                               "state": float(srow[c])}, W(what))
+                break
+            if np.any(shown[lay.VALUE:lay.VALUE + 2]):
+                acc.count("observed_rows_showing_value_or_discovery_value")
             try:
                 mine = readable_of(lay, row)
             except ValueError:
